@@ -80,7 +80,19 @@ def main():
         return 2
     wall = time.time() - t0
     known, _fixed = common.load_known_findings()
-    known_sigs = {(k["property"], k["signature"]): k for k in known}
+    # A listed finding identifies the failing input / call / history: the formula-level signature and, where
+    # given, the cases (instance / walk / history names; prefix match) and a text that the offending event must
+    # contain. Anything else that violates the same formula is a new violation.
+    def match_known(f):
+        for k in known:
+            if k["property"] != f.prop or k["signature"] != f.signature:
+                continue
+            if k.get("cases") and not any(f.case.startswith(c) for c in k["cases"]):
+                continue
+            if k.get("detail_contains") and k["detail_contains"] not in f.detail:
+                continue
+            return k
+        return None
     new, listed = [], {}
     # formulas of the specification that describe behaviour beyond what the property states (exact
     # heuristics, neighbourhood shape): a mismatch is reported, but it is not a violation of the property
@@ -94,7 +106,7 @@ def main():
               "specification in behaviour the property does not constrain; not a violation)" % (
                   prop, formula, len(fs), fs[0].case, fs[0].detail[:160]))
     for f in out.findings:
-        k = known_sigs.get((f.prop, f.signature))
+        k = match_known(f)
         if k is not None:
             listed.setdefault(f.signature, []).append(f)
         else:
